@@ -46,10 +46,19 @@ KAPPA_MAX = 1e5     # bosonic states with sum |weights| above this are cancellat
 
 # ---------------------------------------------------------------------------------------------- oracle
 
-def collect(sf, spec, backend, h, plan, seed):
-    """run at hbar = h and evaluate the plan as one history on the returned state object"""
+def raw_state(st, backend):
+    if backend == "gaussian":
+        return np.concatenate([np.ravel(st.means()), np.ravel(st.cov())])
+    if backend == "bosonic":
+        return hb._arr(np.concatenate([np.ravel(st.weights()), np.ravel(st.means()), np.ravel(st.covs())]))
+    return hb._arr(np.asarray(st.data))
+
+
+def collect(sf, spec, backend, h, plan, seed, op_cache=None):
+    """run at hbar = h and evaluate the plan as one history on the returned state object; then change the global
+    sf.hbar and ask again (a state object answers in the hbar it was generated with)"""
     try:
-        res, st = hb.run(sf, spec, backend, h, seed)
+        res, st = hb.run(sf, spec, backend, h, seed, op_cache)
     except (NotImplementedError,) as e:
         sf.hbar = 2
         return dict(raised="NotImplementedError")
@@ -58,6 +67,15 @@ def collect(sf, spec, backend, h, plan, seed):
         return dict(raised=type(e).__name__, msg=str(e)[:200])
     try:
         s = hb.s_of(h)
+        rerun = None
+        if op_cache is not None:
+            # the same Operation instances applied again (a second program built from the cache): nothing may have been
+            # left behind in them by the first application
+            try:
+                _, st_b = hb.run(sf, spec, backend, h, seed, op_cache)
+                rerun = hb.answers_differ(raw_state(st_b, backend), raw_state(st, backend), 1e-12, True)
+            except Exception as e:  # noqa: BLE001
+                rerun = "second run raised " + type(e).__name__
         homodyne_modes = {o["regs"][0] for o in spec["ops"] if o["cls"] == "MeasureHomodyne"}
         hetero_modes = {o["regs"][0] for o in spec["ops"] if o["cls"] == "MeasureHeterodyne"}
         samples = {}
@@ -73,7 +91,8 @@ def collect(sf, spec, backend, h, plan, seed):
         if backend == "gaussian":
             first = dict(means=hb.observe(sf, st, dict(m="means"), h), cov=hb.observe(sf, st, dict(m="cov"), h))
         elif backend == "bosonic":
-            first = dict(means=hb.observe(sf, st, dict(m="means"), h), cov=hb.observe(sf, st, dict(m="covs"), h))
+            first = dict(means=hb.observe(sf, st, dict(m="means"), h), cov=hb.observe(sf, st, dict(m="covs"), h),
+                         weights=hb.observe(sf, st, dict(m="weights"), h))
         answers = [hb.observe(sf, st, c, h) for c in plan]
         last = {}
         if backend == "gaussian":
@@ -81,7 +100,10 @@ def collect(sf, spec, backend, h, plan, seed):
         elif backend == "bosonic":
             last = dict(means=hb.observe(sf, st, dict(m="means"), h), cov=hb.observe(sf, st, dict(m="covs"), h))
         kappa = float(np.sum(np.abs(st.weights()))) if backend == "bosonic" else 1.0
-        return dict(samples=samples, anc=anc, answers=answers, first=first, last=last, kappa=kappa)
+        sf.hbar = 0.7 if h == 2 else 2
+        again = [hb.observe(sf, st, c, h) for c in plan]
+        return dict(samples=samples, anc=anc, answers=answers, first=first, last=last, kappa=kappa, again=again,
+                    rerun=rerun)
     finally:
         sf.hbar = 2
 
@@ -94,16 +116,39 @@ def fresh_answer(sf, spec, backend, h, call, seed):
         sf.hbar = 2
 
 
-def check_case(ctx, sf, spec, backend, h, plan, seed):
-    """the property itself on the real code.  Returns True if it failed."""
-    rp = dict(kind="twohbar", spec=spec, backend=backend, hbar=h, plan=plan, seed=seed)
+def check_case(ctx, sf, spec, backend, h, plan, seed, order="2h", share=False):
+    """the property itself on the real code.  Returns True if it failed.
+    order: the hbar values are used IN ONE PROCESS in the order 2,h / h,2 / h,2,h (caches keyed without hbar, state left
+    behind by the previous run); share: equal operations are one shared Operation instance within and across the runs."""
+    rp = dict(kind="twohbar", spec=spec, backend=backend, hbar=h, plan=plan, seed=seed, order=order, share=share)
     n0 = len(ctx.failures)
-    ref = collect(sf, spec, backend, 2.0, plan, seed)
-    if ref.get("raised") == "NotImplementedError":
-        ctx.tally("skipped:not-implemented")
-        return False
-    out = collect(sf, spec, backend, h, plan, seed)
+    cache = {} if share else None
+    third = None
+    if order == "2h":
+        ref = collect(sf, spec, backend, 2.0, plan, seed, cache)
+        if ref.get("raised") == "NotImplementedError":
+            ctx.tally("skipped:not-implemented")
+            return False
+        out = collect(sf, spec, backend, h, plan, seed, cache)
+    else:
+        out = collect(sf, spec, backend, h, plan, seed, cache)
+        if out.get("raised") == "NotImplementedError":
+            ctx.tally("skipped:not-implemented")
+            return False
+        ref = collect(sf, spec, backend, 2.0, plan, seed, cache)
+        if order == "h2h":
+            third = collect(sf, spec, backend, h, plan, seed, cache)
     ctx.oracle_cases += 1
+    if third is not None:
+        same = third.get("raised") == out.get("raised")
+        if same and "raised" not in out:
+            same = not any(hb.answers_differ(a, b, 1e-12, True) for a, b in zip(third["answers"], out["answers"])) \
+                and not any(hb.answers_differ(third["first"][k], out["first"][k], 1e-12) for k in out["first"]) \
+                and all(k in third["samples"] and not hb.answers_differ(third["samples"][k], out["samples"][k], 1e-12)
+                        for k in out["samples"])
+        if not same:
+            ctx.fail(f"{backend}:stale-after-hbar-switch", f"{backend}: the same program run at hbar={h}, then at hbar=2, then at "
+                     f"hbar={h} again gives different results in the first and third run", rp)
     if "raised" in ref or "raised" in out:
         ctx.tally("raised:" + str(ref.get("raised")))
         if ref.get("raised") != out.get("raised"):
@@ -111,6 +156,10 @@ def check_case(ctx, sf, spec, backend, h, plan, seed):
                      f"{backend} at hbar=2: {ref.get('raised', 'runs')}, at hbar={h}: {out.get('raised', 'runs')} "
                      f"{out.get('msg', '')}{ref.get('msg', '')}", rp)
         return len(ctx.failures) > n0
+    for o, hh in ((out, h), (ref, 2.0)):
+        if o.get("rerun"):
+            ctx.fail(f"{backend}:shared-operations-rerun", f"{backend} hbar={hh}: a second program built from the same Operation "
+                     f"instances gives a different state: {o['rerun']}"[:400], rp)
     for key, what in (("samples", "measurement samples"), ("anc", "ancilla samples")):
         a, b = out[key], ref[key]
         if set(a) != set(b):
@@ -161,6 +210,15 @@ def check_case(ctx, sf, spec, backend, h, plan, seed):
         if d and not bad_hist:
             ctx.fail(f"{backend}:observer-mutates-{key}", f"{backend} hbar={h}: stored {key} changed after the observer "
                      f"calls {[p['m'] for p in plan]}: {d}"[:400], rp)
+    if not bad_hist:
+        # BaseState.hbar: "the value of hbar used in the generation of the state" - later changes of sf.hbar are irrelevant
+        for which, o, hh in (("hbar", out, h), ("2", ref, 2.0)):
+            for i, c in enumerate(plan):
+                d = hb.answers_differ(o["again"][i], o["answers"][i], 1e-12, True)
+                if d:
+                    ctx.fail(f"{backend}:{c['m']}:reads-global-hbar-at-call", f"{backend}: {c['m']} of a state generated at "
+                             f"hbar={hh} answers differently after sf.hbar was set to another value: {d}"[:400], rp)
+                    break
     return len(ctx.failures) > n0
 
 
@@ -198,18 +256,25 @@ def oracle(ctx, sf):
     for backend, count in budget:
         for it in range(count):
             spec = hb.rand_program(rng, backend)
-            n = spec["n"]
+            if backend != "bosonic" and rng.random() < 0.3:
+                spec = hb.with_holes(rng, spec)
+                ctx.tally("oracle:register-with-holes", int(any(o["cls"] == "Del" for o in spec["ops"])))
+            n = hb.final_modes(spec)
             h = hb.HBARS[it % len(hb.HBARS)] if rng.random() < 0.8 else rng.choice(hb.HBARS)
             lo, hi = plans.get(backend, (4, 8))
             plan = hb.rand_plan(rng, backend, n, rng.randint(lo, hi))
             seed = rng.randrange(10 ** 6)
+            order = rng.choice(["2h", "2h", "h2", "h2", "h2h"])
+            share = rng.random() < 0.5
+            ctx.tally(f"oracle:order={order}")
+            ctx.tally("oracle:shared-op-instances", int(share))
             nt = hb.is_nontrivial(spec)
-            ctx.count(f"oracle:{backend}:n={n}", dict(s=spec, b=backend, h=h, p=plan), nt,
+            ctx.count(f"oracle:{backend}:n={n}", dict(s=spec, b=backend, h=h, p=plan, o=order, sh=share), nt,
                       sample=dict(spec=spec, backend=backend, hbar=h, plan=plan[:3]))
             for o in spec["ops"]:
                 if o["cls"] in ("Xgate", "Zgate", "Vgate", "Gaussian", "MeasureHomodyne", "MSgate"):
                     ctx.tally(f"op:{backend.split('-')[0]}:{o['cls']}")
-            check_case(ctx, sf, spec, backend, h, plan, seed)
+            check_case(ctx, sf, spec, backend, h, plan, seed, order, share)
     for _ in range(ctx.n(3, 30)):
         utils_states_check(ctx, sf, rng)
 
@@ -284,7 +349,8 @@ def run_corpus(ctx, sf):
 def _replay(ctx, sf, rp):
     n0 = len(ctx.failures)
     if rp["kind"] == "twohbar":
-        check_case(ctx, sf, rp["spec"], rp["backend"], rp["hbar"], rp["plan"], rp.get("seed", 0))
+        check_case(ctx, sf, rp["spec"], rp["backend"], rp["hbar"], rp["plan"], rp.get("seed", 0), rp.get("order", "2h"),
+                   rp.get("share", False))
     elif rp["kind"] == "utils":
         pass
     return len(ctx.failures) > n0
